@@ -13,6 +13,7 @@ import (
 	"verif/exact"
 	"verif/gen"
 	"verif/model"
+	"verif/props/shared"
 	"verif/run"
 )
 
@@ -24,7 +25,7 @@ func init() {
 			"non-trivial = tree with Z or M and at least one ordinate, or a mixed-type construction; distinct by WKB (+ construction recipe)",
 		Assumptions:      []string{"unique Z/M tags make the vertex association unambiguous; tuples are compared as multisets (and as subsequences for Densify)"},
 		MinNontrivial:    500,
-		RequiredMonitors: []string{"uniform-ctype", "force", "constructor-reduce", "preserve-Reverse", "preserve-TransformXY", "preserve-SnapToGrid", "preserve-Densify", "preserve-Dump", "preserve-DumpCoordinates", "preserve-AsMulti", "preserve-ForceCW", "preserve-roundtrip", "xy-only"},
+		RequiredMonitors: []string{"uniform-ctype", "force", "constructor-reduce", "preserve-Reverse", "preserve-TransformXY", "preserve-SnapToGrid", "preserve-Densify", "preserve-Dump", "preserve-DumpCoordinates", "preserve-AsMulti", "preserve-ForceCW", "preserve-roundtrip", "xy-only", "concrete-entry"},
 		Run:              runAll,
 	})
 }
@@ -145,6 +146,7 @@ func opsOn(k *run.K, t model.Tree) {
 		k.Nontrivial(string(g.AsBinary()))
 	}
 	base := tuples(t, nil)
+	shared.ConcreteAgree(k, g, "concrete-entry", concreteCalls, nil)
 	// ForceCoordinatesType to every target, Force2D
 	for _, target := range model.CTypes {
 		var f geom.Geometry
@@ -494,4 +496,15 @@ func runAll(c *run.Ctx) {
 	for i := 0; i < c.N(12000, 100000); i++ {
 		c.Case("mixed", i, mixed)
 	}
+}
+
+// concreteCalls: the operations of the statement that exist both on Geometry and on the concrete types.
+var concreteCalls = []shared.Call{
+	{Method: "CoordinatesType"}, {Method: "Type"},
+	{Method: "ForceCoordinatesType", Args: []any{geom.DimXY}}, {Method: "ForceCoordinatesType", Args: []any{geom.DimXYZ}},
+	{Method: "ForceCoordinatesType", Args: []any{geom.DimXYM}}, {Method: "ForceCoordinatesType", Args: []any{geom.DimXYZM}}, {Method: "Force2D"},
+	{Method: "TransformXY", Args: []any{func(p geom.XY) geom.XY { return geom.XY{X: p.X + 1, Y: 2 * p.Y} }}},
+	{Method: "DumpCoordinates"}, {Method: "Dump"}, {Method: "AsMultiPoint"}, {Method: "AsMultiLineString"}, {Method: "AsMultiPolygon"},
+	{Method: "Densify", Args: []any{0.7}}, {Method: "SnapToGrid", Args: []any{1}}, {Method: "Reverse"}, {Method: "ForceCW"}, {Method: "ForceCCW"},
+	{Method: "Centroid"}, {Method: "ConvexHull"}, {Method: "PointOnSurface"}, {Method: "Envelope"},
 }
